@@ -1,6 +1,7 @@
 package gen
 
 import (
+	"strings"
 	"encoding/json"
 	"math/big"
 	"sort"
@@ -81,7 +82,14 @@ func hostileMutate(c *Ctx, src Tx) *Tx {
 				case string:
 					if _, ok := new(big.Int).SetString(vv, 10); ok && len(vv) > 0 && !(hasCur && hasVal && k == "value") {
 						spots = append(spots, spot{x, k, "string-number"})
+					} else if strings.HasPrefix(vv, "0lt") {
+						spots = append(spots, spot{x, k, "address"})
+					} else if len(vv) > 0 {
+						spots = append(spots, spot{x, k, "string"})
 					}
+				case map[string]interface{}:
+					spots = append(spots, spot{x, k, "object"})
+					walk(vv)
 				default:
 					walk(vv)
 				}
@@ -107,6 +115,21 @@ func hostileMutate(c *Ctx, src Tx) *Tx {
 		i := c.Rng.Intn(len(hostileCurrencies))
 		sp.obj[sp.key] = hostileCurrencies[i]
 		label = "currency:" + hostileCurrencyClass[i]
+	case "address":
+		vals := []string{"", "0lt", "0lt00", "0x" + strings.Repeat("ab", 20), "0lt" + strings.Repeat("ab", 32), "0lt" + strings.Repeat("0", 40), "0ltzz", strings.Repeat("f", 40)}
+		cls := []string{"empty", "prefix-only", "short", "0x", "long", "zero", "nonhex", "noprefix"}
+		i := c.Rng.Intn(len(vals))
+		sp.obj[sp.key] = vals[i]
+		label = sp.key + ":addr-" + cls[i]
+	case "string":
+		vals := []string{"", strings.Repeat("A", 70000), "\u0000", "../../x", "~", "_"}
+		cls := []string{"empty", "huge", "nul", "path", "tilde", "underscore"}
+		i := c.Rng.Intn(len(vals))
+		sp.obj[sp.key] = vals[i]
+		label = sp.key + ":str-" + cls[i]
+	case "object":
+		sp.obj[sp.key] = nil
+		label = sp.key + ":null"
 	case "number":
 		vals := []json.Number{"-1", "0", "9223372036854775807", "-9223372036854775808", "4294967296"}
 		cls := []string{"neg", "zero", "maxint64", "minint64", "gt32"}
